@@ -80,9 +80,9 @@ def strategy(draw):
         if rows and draw(st.integers(0, 6)) == 0:
             c, s, e = rows[-1][:3]
         else:
-            s = draw(st.one_of(st.just(0), st.integers(0, 1000), st.integers(0, 3 * 10 ** 8 - 1)))
+            s = draw(st.one_of(st.just(0), st.integers(0, 1000), st.integers(0, 3 * 10 ** 8 - 1), st.integers(2 ** 31 - 5, 2 ** 32 + 1000)))
             e = s + draw(st.one_of(st.integers(1, 10), st.integers(1, 10 ** 6)))
-            e = min(e, 3 * 10 ** 8)
+            e = min(e, 3 * 10 ** 8) if s < 3 * 10 ** 8 else e
         rows.append([c, s, e, draw(gene_label())])
     floats = [draw(FLOATS) for _ in rows]
     return {
@@ -113,7 +113,7 @@ def render(fmt, case):
     elif fmt == "tab":
         L = ["chromosome\tstart\tend\tgene\tlog2"] + [f"{c}\t{s}\t{e}\t{g}\t{v!r}" for (c, s, e, g), v in zip(rows, case["log2"])]
     elif fmt == "interval":
-        L = ["@HD\tVN:1.4\tSO:unsorted"] + [f"@SQ\tSN:{c}\tLN:300000000" for c in dict.fromkeys(r[0] for r in rows)]
+        L = ["@HD\tVN:1.4\tSO:unsorted"] + [f"@SQ\tSN:{c}\tLN:9000000000" for c in dict.fromkeys(r[0] for r in rows)]
         L += [f"{c}\t{s + 1}\t{e}\t{'+-'[i % 2]}\t{g}" for i, (c, s, e, g) in enumerate(rows)]
     elif fmt == "text":
         L = [f"{c}:{s + 1}-{e}" + (f" {g}" if i % 2 else f"\t{g}") for i, (c, s, e, g) in enumerate(rows)]
@@ -128,7 +128,7 @@ def render(fmt, case):
     elif fmt in ("vcf-sites", "vcf-simple", "vcf"):
         L = ["##fileformat=VCFv4.2"]
         for c in dict.fromkeys(r[0] for r in rows):
-            L.append(f"##contig=<ID={c},length=300000001>")
+            L.append(f"##contig=<ID={c},length=9000000001>")
         L += ['##INFO=<ID=END,Number=1,Type=Integer,Description="End">', '##INFO=<ID=SVTYPE,Number=1,Type=String,Description="t">',
               '##ALT=<ID=DEL,Description="Deletion">', '##FORMAT=<ID=GT,Number=1,Type=String,Description="Genotype">']
         L.append("#CHROM\tPOS\tID\tREF\tALT\tQUAL\tFILTER\tINFO\tFORMAT\tS1")
@@ -239,6 +239,8 @@ def check_case(case):
     try:
         # ------------------------------------------------ read side
         for fmt in READ_FORMATS:
+            if fmt.startswith("vcf") and any(r[2] >= 2 ** 31 - 1 for r in rows):
+                continue  # VCF Integer fields (INFO/END) are 32-bit: htslib sets larger values to missing
             if not rows and fmt in ("seg", "vcf-sites", "vcf-simple", "vcf", "tab", "gff", "picardhs", "interval", "text"):
                 continue  # header-only / empty renderings of these formats are not in the quantifier
             path = os.path.join(d, "in_" + fmt.replace("-", "_") + SUFFIX[fmt])
